@@ -260,6 +260,7 @@ int epoll_ctl(int ep, int op, int fd, struct epoll_event* ev) {
     if (op != EPOLL_CTL_ADD || r != 0) return (int) r;
     errno = EEXIST; return -1;
   }
+  if (e && op == EPOLL_CTL_DEL) e = 0;          /* removal does not allocate: ENOMEM is not meaningful for it */
   if (e) { errno = e; return -1; }
   return RAW(SYS_epoll_ctl, ep, op, fd, ev);
 }
@@ -439,8 +440,14 @@ static void epilogue(void) {
       if (!ok) VIOL("spare-fd-lost", "loop->emfile_fd=%d after the scenario", loop->emfile_fd);
     }
     uv_walk(loop, walk_close, NULL);
-    r = uv_run(loop, UV_RUN_DEFAULT);
-    if (r != 0) VIOL("loop-alive", "uv_run(DEFAULT) returned %d after everything was closed", r);
+    /* run to completion: poll without blocking (threadpool work may still be in flight) for at most ~3 s */
+    for (i = 0; i < 3000; i++) {
+      struct timespec ts = { 0, 1000000 };
+      r = uv_run(loop, UV_RUN_NOWAIT);
+      if (r == 0) break;
+      RAW(SYS_nanosleep, &ts, 0);
+    }
+    if (r != 0) VIOL("loop-alive", "uv_run still reports work after everything was closed (active_handles=%u active_reqs=%u)", loop->active_handles, loop->active_reqs.count);
     if (loop->active_reqs.count != 0) VIOL("active-reqs", "loop->active_reqs.count=%u after the scenario", loop->active_reqs.count);
     if (uv_loop_alive(loop)) VIOL("loop-alive", "%s", "uv_loop_alive after the scenario");
     for (i = 0; i < Q_N; i++) if (owed[i] != got[i]) VIOL("callbacks-owed", "%s owed=%d delivered=%d", qname[i], owed[i], got[i]);
@@ -680,7 +687,7 @@ static void sc_udp(void) {
   else if (r < 0) goto out;
   else if (r != 6) VIOL("udp-try-short", "uv_udp_try_send returned %d for a 6 byte datagram", r);
   for (i = 1; i < UDP_N; i++) if (ud_send(msg[i], "-queued")) goto out;
-  OUT("T udp-queue size=%zu count=%zu", uv_udp_get_send_queue_size(ud.tx), uv_udp_get_send_queue_count(ud.tx));
+  OUT("I udp-queue size=%zu count=%zu", uv_udp_get_send_queue_size(ud.tx), uv_udp_get_send_queue_count(ud.tx));
   uv_run(loop, UV_RUN_DEFAULT);
   return;
 out:
@@ -742,13 +749,18 @@ static int fs_result(uv_fs_t* rq) {
 static void fs_next(uv_fs_t* done) {
   for (;;) {
     uv_fs_t* rq; int r;
-    if (done != NULL) { int stop = fs_result(done); uv_fs_req_cleanup(done); free(done); done = NULL; if (stop) { bail(); return; } fsx.step++; }
+    if (done != NULL) {
+      int stop = fs_result(done); uv_fs_req_cleanup(done); free(done); done = NULL;
+      if (!stop && FS_OP == 8) fsx.fd = -1;
+      if (stop) { if (fsx.fd > 0) { RAW(SYS_close, fsx.fd); fsx.fd = -1; } bail(); return; }
+      fsx.step++;
+    }
     rq = NEW(uv_fs_t);
     r = fs_issue(rq);
     if (r == 1) { free(rq); OUT("T fs done"); return; }
     if (fsx.async) {
       char nm[48]; snprintf(nm, sizeof nm, "uv_fs_%s", fs_names[FS_OP]);
-      if (A_(nm, r, 0) < 0) { uv_fs_req_cleanup(rq); free(rq); bail(); return; }
+      if (A_(nm, r, 0) < 0) { uv_fs_req_cleanup(rq); free(rq); if (fsx.fd > 0) { RAW(SYS_close, fsx.fd); fsx.fd = -1; } bail(); return; }
       owed[Q_fs]++;
       return;
     }
@@ -892,7 +904,7 @@ out:
 static struct { uv_fs_poll_t* h; uv_timer_t* t; char path[300]; int n; } fp;
 static void fp_cb(uv_fs_poll_t* h, int status, const uv_stat_t* prev, const uv_stat_t* cur) {
   if (CB("fs_poll_cb", status)) return;
-  OUT("T fs_poll changed grew=%d", cur->st_size > prev->st_size);
+  OUT("T fs_poll changed"); (void) prev; (void) cur;
   A("uv_fs_poll_stop", uv_fs_poll_stop(h)); hclose(h); hclose(fp.t);
 }
 static void fp_touch(uv_timer_t* t) {
